@@ -35,6 +35,7 @@ structure Seen where
   band  : List (Nat × Band) := []
   tbl   : List (Nat × TblView) := []
   lastTx : List (Nat × Nat) := []
+  specLast : List (Nat × Nat) := []   -- time (s) of the last input each automaton was given, as the checker saw it
 
 def upd {α} (l : List (Nat × α)) (k : Nat) (v : α) : List (Nat × α) := (k, v) :: l.filter (fun p => p.1 != k)
 
@@ -140,8 +141,23 @@ def kindOf (s : Seen) (A : Nat) : String := (s.kind.lookup A).getD ""
 
 def noteKind (s : Seen) (op : List String) : Seen :=
   match op with
-  | ["fsm", "new", a, k] => match parseDec a with | some A => { s with kind := upd s.kind A k } | none => s
+  | ["fsm", "new", a, k] => match parseDec a with
+    | some A => { s with kind := upd s.kind A k, specLast := upd s.specLast A (s.clock / 1000) } | none => s
+  | ["fsm", "set", a, _, l] => match parseDec a, parseDec l with
+    | some A, some l => { s with specLast := upd s.specLast A l } | _, _ => s
   | _ => s
+
+/-- after the op: an input refreshes the time of the last input -/
+def noteInput (s : Seen) (op : List String) : Seen :=
+  match op with
+  | ["fsm", "step", a, _] => match parseDec a with
+    | some A => { s with specLast := upd s.specLast A (s.clock / 1000) } | none => s
+  | _ => s
+
+def preFsm (s : Seen) (A : Nat) : Option Fsm :=
+  match s.fsm.lookup A with
+  | some f => some { state := f.state, lastTs := (s.specLast.lookup A).getD f.lastTs }
+  | none => none
 
 def checkC14 (steps : List Step) : Option (Nat × String) := Id.run do
   if !holdsC14Timeouts X.mappingTimeouts then
@@ -156,7 +172,7 @@ def checkC14 (steps : List Step) : Option (Nat × String) := Id.run do
       match parseDec a, parseInt i with
       | some A, some inp =>
         if kindOf s0 A == "map" then
-          match s.fsm.lookup A, s'.fsm.lookup A with
+          match preFsm s0 A, s'.fsm.lookup A with
           | some pre, some post =>
             let tmo := timeoutOf X.mappingTimeouts pre.state
             if pre.state < 3 && !holdsC14Step tmo pre post inp (s.clock / 1000) then
@@ -185,7 +201,7 @@ def checkC14 (steps : List Step) : Option (Nat × String) := Id.run do
         | none => pure ()
       | none => pure ()
     | _ => pure ()
-    s := s'
+    s := noteInput s' st.op
     idx := idx + 1
   return none
 
@@ -200,7 +216,7 @@ def checkC15 (steps : List Step) : Option (Nat × String) := Id.run do
       match parseDec a, parseInt i with
       | some A, some inp =>
         if kindOf s0 A == "sess" then
-          match s.fsm.lookup A, s'.fsm.lookup A with
+          match preFsm s0 A, s'.fsm.lookup A with
           | some pre, some post =>
             let tmo := timeoutOf X.sessionTimeouts pre.state
             if pre.state < 4 && !holdsC15Step tmo pre post inp (s.clock / 1000) then
@@ -208,7 +224,7 @@ def checkC15 (steps : List Step) : Option (Nat × String) := Id.run do
           | _, _ => pure ()
       | _, _ => pure ()
     | _ => pure ()
-    s := s'
+    s := noteInput s' st.op
     idx := idx + 1
   return none
 
